@@ -178,7 +178,8 @@ func canonAttrs(n *html.Node, o Options) string {
 	for _, k := range keys {
 		v := attrs[k]
 		switch {
-		case booleanAttrs[k]:
+		case booleanAttrs[k] && !strings.Contains(tag, "-"):
+			// boolean on HTML elements; on a custom element the value may mean anything
 			sb.WriteString(" " + k)
 			continue
 		case o.EmbeddedOpaque && (k == "style" || strings.HasPrefix(k, "on") && len(k) > 2):
